@@ -412,11 +412,12 @@ def _depends(a: Atom, at: Atom):
 
 class Cond:
     """A comparison between abstract scalars.  ``bool()`` asks the active oracle."""
-    __slots__ = ("op", "lhs", "rhs", "text", "tol")
+    __slots__ = ("op", "lhs", "rhs", "text", "tol", "elements")
     oracle = None  # set by the interpreter: callable(Cond) -> bool | None
 
     def __init__(self, op, lhs, rhs=None, text=None, tol=None):
         self.op, self.lhs, self.rhs, self.text, self.tol = op, lhs, rhs, text, tol
+        self.elements = None
 
     def __bool__(self):
         o = Cond.oracle
